@@ -4,7 +4,7 @@ unrelated classes) would be wrong at a non-zero base offset."""
 import re
 from .. import common, astq
 
-FUNCS = "optimal_cast|::cast<|thunk<|dynamic_cast_ref|::rarg|::unbox|::box<"
+FUNCS = "optimal_cast|::cast<|thunk<|dynamic_cast_ref|::rarg|::unbox|::box<|add_function<"
 BAD = {"BitCast", "LValueBitCast", "IntegralToPointer", "PointerToIntegral", "ReinterpretMemberPointer", "LValueToRValueBitCast"}
 GOOD_DOWN = {"BaseToDerived", "Dynamic"}
 
@@ -44,6 +44,7 @@ def check(run):
         run.broken.append("C11-casts saw only %d BaseToDerived/Dynamic casts in the conversion helpers" % down)
 
     ownership_rule(run, ast)
+    thunk_rule(run, ast)
 
 
 SHARING = r"^std::(static|dynamic|const|reinterpret)_pointer_cast<"
@@ -118,3 +119,29 @@ def ownership_rule(run, ast):
                 fq = re.sub(r"<.*", "", f["name"].replace("yorel::yomm2::", ""))
                 kind = "const-ref" if "const std::shared_ptr" in f["name"].split("::cast<")[0] else "value"
                 run.violation(rule, "%s|%s|owner" % (fq, kind), "%s returns %s: the converted pointer does not share ownership with the caller's shared_ptr" % (f["name"][:160], o), (f["file"], r["l"]))
+
+
+def thunk_rule(run, ast):
+    """every definition is reached through its thunk: add_function stores thunk<Policy, signature, F, ...>::fn of the same F in
+    the definition record, whatever the definition's parameter classes (the thunk is what converts and forwards the arguments)"""
+    rule = "C11-thunk"
+    run.rule(rule, "add_function registers the definition's thunk (never the function itself) as the dispatch target", floor=6)
+    for f in ast.funcs:
+        if f.get("body") is None or not re.search(r"add_function<.*>::add_function$", f["name"]):
+            continue
+        asg = [n for n in astq.walk(f["body"]) if n.get("k") == "BinaryOperator" and n.get("op") == "=" and astq.strip(n["c"][0]).get("k") == "MemberExpr" and astq.strip(n["c"][0]).get("member") == "pf"]
+        if not asg:
+            run.broken.append("C11-thunk: no assignment of the definition record's function in %s" % f["name"][:120])
+            continue
+        fm = re.search(r"add_function<(.*)>::add_function$", f["name"])
+        target = fm.group(1).lstrip("&") if fm else "?"
+        bad = []
+        for n in asg:
+            refs = [x["ref"]["name"] for x in astq.walk(n["c"][1]) if x.get("k") == "DeclRefExpr" and x["ref"].get("dk") in ("Function", "CXXMethod")]
+            okn = len(refs) == 1 and re.search(r"detail::thunk<.*>::fn$", refs[0]) and target.split("::")[-1] in refs[0]
+            if not okn:
+                bad.append((n, refs))
+        run.instance(rule, f["name"], (f["file"], f["line"]), ok=not bad)
+        for n, refs in bad:
+            run.violation(rule, "method::add_function|target", "%s registers `%s` as the function to call: the arguments then reach the definition without the thunk's conversions (address adjustment, smart-pointer cast, forwarding)" % (
+                f["name"][:140], (refs[0] if refs else astq.text(n["c"][1]))[:100]), (f["file"], n["l"]))
